@@ -253,6 +253,17 @@ def check_idempotent_guard(ctx, R, classes, note_classes=()):
                             neg = t.startswith('not')
                             if (want_pos and neg) or (not want_pos and not neg):
                                 bad = (s, 'the guard %s has the wrong polarity for %s()' % (src(s.test), mname))
+                            # the guard must *imply* the state in which the call has work to do: every disjunct of an `or`
+                            # has to say so itself (start: stopped; stop: not stopped), otherwise the other disjunct lets a
+                            # redundant call through
+                            if isinstance(s.test, ast.BoolOp) and isinstance(s.test.op, ast.Or):
+                                for v in s.test.values:
+                                    tv = src(v).replace(' ', '')
+                                    good = tv in (('self.stopped',) if mname == 'start' else ('notself.stopped',))
+                                    if not good:
+                                        bad = (s, 'the guard of %s() also lets the call through when `%s` holds, which does not '
+                                                  'imply that the source is %s: a redundant %s() has an effect'
+                                               % (mname, src(v), 'stopped' if mname == 'start' else 'running', mname))
                         if s.orelse and _effects(ast.Module(body=s.orelse, type_ignores=[])):
                             bad = (s, 'effects in the else-branch of the state guard')
                         continue
